@@ -34,7 +34,7 @@ Actions ==
      \cup (IF s.armed THEN {} ELSE {[a |-> "rearm"]})
      \cup {[a |-> "starthunt", c |-> c, rq |-> q] : c \in Clients, q \in {"match", "other"}}
      \cup {[a |-> "stophunt", c |-> c] : c \in Clients}
-     \cup (IF s.closed THEN {} ELSE {[a |-> "close"]})
+     \cup {[a |-> "close"]}                                   \* also on a closed handler (idempotent)
         ELSE {})
 
 Sensible(a) == ("rq" \in DOMAIN a /\ a.rq = "match") => a.rq \in Rqs(a.c)
